@@ -112,3 +112,35 @@ pub fn as_set(m: &BTreeMap<Vec<u8>, Entry>) -> std::collections::BTreeSet<String
 pub fn iter_set(resp: &str) -> std::collections::BTreeSet<String> {
     if resp == "_" { Default::default() } else { resp.split(';').map(|s| s.to_string()).collect() }
 }
+
+/// C20's layout rules, checked on the files alone: versions strictly increasing in segment-id
+/// order, every record in the segment its version belongs to ((v-1)/N), and EVERY acknowledged
+/// version above the snapshot's version present in some segment (`next` = the version the next
+/// logged operation would get; fault-free sessions only — a failed append burns a version).
+/// `None`: the files cannot be judged by these rules (an undecodable record inside a segment).
+pub fn layout_violations(dir: &Path, n_wal: u64, next: u64) -> Option<Vec<String>> {
+    let (snap_ver, _) = read_snapshot(dir)?;
+    let mut segs: Vec<(u64, Vec<(u64, Vec<u8>)>)> = Vec::new();
+    for e in std::fs::read_dir(dir).ok()?.flatten() {
+        let name = e.file_name().to_string_lossy().into_owned();
+        if let Some(id) = name.strip_suffix("_index.wal").and_then(|x| x.parse::<u64>().ok()) {
+            segs.push((id, read_segment(&std::fs::read(e.path()).ok()?)?));
+        }
+    }
+    segs.sort_by_key(|s| s.0);
+    let mut bad = Vec::new();
+    let mut last = 0u64;
+    let mut seen = std::collections::BTreeSet::new();
+    for (id, recs) in &segs {
+        for (v, _) in recs {
+            if *v <= last { bad.push(format!("version {v} in segment {id} does not exceed the previous version {last}")); }
+            last = *v;
+            if n_wal > 0 && (*v - 1) / n_wal != *id { bad.push(format!("version {v} is in segment {id}, its place is segment {}", (*v - 1) / n_wal)); }
+            seen.insert(*v);
+        }
+    }
+    for v in snap_ver + 1..next {
+        if !seen.contains(&v) { bad.push(format!("acknowledged version {v} is above the snapshot's version {snap_ver} and in no segment")); break; }
+    }
+    Some(bad)
+}
